@@ -202,7 +202,19 @@ InsideCurrent ==
 \* makes the cell equal to the intersection of all half-spaces, i.e. the nearest-generator region:
 \* the stored planes bound a closed convex surface whose vertices all lie in the region, so
 \* conv(verts) = /\ stored planes  >=  region  >=  conv(verts).
-Final == pc = "done" => \A v \in verts : \A q \in Cands : Side(v.h, CandPlane(q)) >= 0
+\* (Evaluation shortcut, pure geometry and independent of the algorithm: a point at distance r from
+\* the generator can only be closer to q if |q - g| < 2r, so candidates with d^2 > 4 r^2max need no
+\* Side test.  RadUB is an integer upper bound of 4 r^2max, or -1 when the numbers are too large
+\* for the shortcut - then every candidate is tested.)
+RadUB ==
+    LET ub(v) == LET u == VMul(Act, VSub(HXYZ(v.h), VScale(v.h[4], Own)))
+                     m == Max2(Max2(Abs(u[1]), Abs(u[2])), Abs(u[3]))
+                 IN IF m < 10000 THEN (4 * N2(u)) \div (v.h[4] * v.h[4]) + 1 ELSE -1
+        S == {ub(v) : v \in verts}
+    IN IF -1 \in S THEN -1 ELSE SetMax(S)
+FinalAt(ub) == \A q \in Cands : (ub < 0 \/ CandD2(q) <= ub) => \A v \in verts : Side(v.h, CandPlane(q)) >= 0
+Final == pc = "done" => FinalAt(RadUB)
+FinalFull == pc = "done" => \A v \in verts : \A q \in Cands : Side(v.h, CandPlane(q)) >= 0
 
 \* Candidates are taken in non-decreasing distance.
 SortedVisits == \A q2 \in Cands \ visited : last.d2 <= CandD2(q2)
